@@ -16,6 +16,8 @@ def build_script(r, two=False):
         o = json.loads(json.dumps(o))
         if isinstance(o.get('budget'), str):
             o['budget'] = wit.get(o['budget'], 1)
+        if isinstance(o.get('start_offset'), str):
+            o['start_offset'] = wit.get(o['start_offset'], 0)
         ops.append(o)
     # let the background reclaimer run (1 ms ticks, deletion every 1000 ticks), then restart and drain every topic
     ops.append(dict(op='sleep_ms', ms=4000))
@@ -60,7 +62,7 @@ def main(tier, seed, prop=PROP, two=False):
     runner.clear_replays(prop)
     L = 3 if tier == 'quick' else 4
     rep.bounds = dict(prefix='concrete history that fully allocates one 1000 MiB file with three blocks of two topics and seals them (490 MiB, 100 B, 480 MiB, 20 MiB appends)',
-                      suffix='every sequence of %d operations from {read_next, peek, consuming batch read, peeking batch read} on the topics, byte budgets symbolic' % L,
+                      suffix='every sequence of <= %d operations from {read_next, peek, consuming batch read, peeking batch read, offset-addressed read (symbolic offset)} on the topics, byte budgets symbolic; plus a second family: three small entries in a file that is not fully allocated, followed by every sequence of <= %d operations from {read_next, peek, offset read, clean restart}' % (L, L),
                       reclaimer='deletion channel observed in the model; natively the background thread runs with 1 ms ticks')
     rep.assumptions = list(envmodel.ASSUMPTIONS) + ['a file sent to the deletion channel is removed by the background thread at its next cleanup tick']
     binp, err = replay.build()
@@ -69,7 +71,12 @@ def main(tier, seed, prop=PROP, two=False):
         return rep.finish()
     docs = runner.parse_sources(engine.CORE_FILES)
     rng = random.Random(seed)
-    jobs = [dict(len=n, instances=2 if two else 1) for n in range(1, L + 1)]
+    # targeted fixed suffixes first (cheap): consuming reads followed by one non-consuming call of every kind
+    fixed = []
+    for last in ('oA', 'oB', 'PA', 'pA'):
+        for pre in ([], ['nA'], ['nA', 'nA'], ['nA', 'nB'], ['nB', 'nA', 'nA']):
+            fixed.append(dict(len=len(pre) + 1, suffix=pre + [last]))
+    jobs = ([] if two else fixed) + [dict(len=n, prefix='small') for n in range(1, L + 1)] + [dict(len=n, instances=2 if two else 1) for n in range(1, L + 1)]
     if two:
         # the second instance walks through its three sealed blocks: fixed suffixes of consuming reads (+ peeks)
         jobs = [dict(len=n, instances=2) for n in (1, 2)]
